@@ -166,7 +166,13 @@ func main() {
 	work := filepath.Join(*root, ".work", fmt.Sprintf("%s-%s-%d", prop, *tier, os.Getpid()))
 	os.RemoveAll(work)
 	os.MkdirAll(filepath.Join(work, "smt"), 0o755)
-	evPath := filepath.Join(*root, "evidence", prop+".json")
+	// evidence/ and replay/ describe complete runs against the real repository only; a run against another tree
+	// (--repo, used for seeded changes) or over a subset of the entries (--only) writes under .work/ instead
+	outRoot := *root
+	if filepath.Clean(*repo) != "/repo" || *only != "" {
+		outRoot = filepath.Join(*root, ".work", "scratch-out")
+	}
+	evPath := filepath.Join(outRoot, "evidence", prop+".json")
 	os.MkdirAll(filepath.Dir(evPath), 0o755)
 
 	inconclusive := func(msg string) {
@@ -327,7 +333,7 @@ func main() {
 	}
 
 	// replay new violations against the native build (or concretely in the interpreter)
-	replayDir := filepath.Join(*root, "replay", prop)
+	replayDir := filepath.Join(outRoot, "replay", prop)
 	nativeOK := !*noNative
 	var confirmed []string
 	reportedLabels := map[string]bool{}
